@@ -106,7 +106,7 @@ func runE1Check(rc *runCtx, assumptions []string, extra func(cov map[string]inte
 	rc.writeEvidence(cov, assumptions, viol)
 	fmt.Printf("%s %s: scenarios=%d executions=%d states=%d transitions=%d distinct_outcomes=%d exhaustive=%v violations=%d known=%d wall=%.1fs\n",
 		rc.Prop, rc.Tier, len(scs), sum.Execs, sum.States, sum.Trans, sum.Outcomes, sum.Exhaustive, viol, known, time.Since(rc.t0).Seconds())
-	if len(sum.Vacuous) > 0 {
+	if len(sum.Vacuous) > 0 && viol == 0 && known == 0 {
 		fmt.Fprintf(os.Stderr, "INFRASTRUCTURE: %d vacuous scenarios (a single outcome where several were expected), e.g. %s\n", len(sum.Vacuous), sum.Vacuous[0])
 		return 2
 	}
